@@ -102,7 +102,10 @@ func loadBlockLinks(ctx context.Context, linkSys *linking.LinkSystem, block *cor
 		wg.Add(1)
 		go func(lnk cidlink.Link) {
 			defer wg.Done()
-			if ctxWithCancel.Err() != nil {
+			if err := ctxWithCancel.Err(); err != nil {
+				// The link is not loaded: the sync is incomplete and must not report success.
+				// If a sibling failed first, its error has been recorded already and is kept.
+				asyncErrOnce.Do(func() { setAsyncErr(err) })
 				return
 			}
 			ctxWithTimeout, cancel := context.WithTimeout(ctx, syncBlockLinkTimeout)
